@@ -29,7 +29,8 @@ type ScaleEvent struct {
 	SendErr   int    `json:"senderr"`
 	DupNonce  int    `json:"dupnonce"` // emitted records sharing a counter under one key
 	LowNonce  int    `json:"lownonce"` // data records carrying a handshake counter (< 16)
-	MaxNonce  uint64 `json:"maxnonce"`
+	MaxNonce  uint64 `json:"-"`
+	Headroom  int    `json:"headroom"` // MaxNonce minus the largest counter used (limit case)
 	Panic     bool   `json:"panic"`
 	PanicV    string `json:"panicv"`
 }
@@ -181,6 +182,7 @@ func scaleLimit(id int) (ev ScaleEvent) {
 		}
 	}
 	ev.Sent = 8
+	ev.Headroom = int(int64(p2pke.MaxNonce) - int64(ev.MaxNonce))
 	return ev
 }
 
